@@ -1158,6 +1158,16 @@ class Interp:
         if isinstance(a, (SSeq, LRef)) or isinstance(b, (SSeq, LRef)):
             if a is b:
                 return True
+            # a list of symbolic length compared with a list of concrete length (e.g. `keys == ["window resize"]`):
+            # equal lengths and equal elements, as CPython's list.__eq__ (both sides must be lists: LRef)
+            for x, y in ((a, b), (b, a)):
+                if isinstance(x, LRef) and isinstance(x.seq, SSeq) and isinstance(y, LRef) and isinstance(y.seq, tuple):
+                    if not st.branch(V._cmp("==", Q.seq_len(x), len(y.seq))):
+                        return False
+                    r = True
+                    for j, c in enumerate(y.seq):
+                        r = both(r, self.equals(st, Q.seq_get(x, j), c))
+                    return r
             raise Unsupported("equality of symbolic sequences")
         for x, y in ((a, b), (b, a)):
             # an opaque individual compared with a plain constant: the protocol may answer (`eq_const`), e.g. an
@@ -1208,6 +1218,12 @@ class Interp:
             return r
         if isinstance(container, (str, bytes)) and not isinstance(x, Sym):
             return x in container
+        cseq = container.seq if isinstance(container, LRef) else container
+        if isinstance(cseq, SSeq) and getattr(cseq, "contains_model", None) is not None:
+            # the sequence's own membership model (e.g. "holds the resize marker at some index"): may decline
+            r = cseq.contains_model(st, st.force(x))
+            if r is not NotImplemented:
+                return r
         if isinstance(container, (LRef, SSeq)) and getattr(self.task.c, "abstract_contains", False):
             # membership in a sequence of symbolic length, left unspecified (the contract does not depend on it)
             return st.fresh_bool("contains")
